@@ -618,7 +618,7 @@ def sym_sqrt(x):
         r = _exact_root(x.re, 2)
         if r is not None:
             return Sym(r)
-        if St.mode == "EUF":
+        if St.mode == "EUF" or St.pow_mode == "float":
             St.float_evals += 1
             return Sym(math.sqrt(x.re))
         key = ("sqrt", str(x.re))
